@@ -312,9 +312,11 @@ func init() {
 				if deadlineThenSlow && k == 1 {
 					callCtx = ctx // no deadline at all
 				}
-				if c.flags == 0 && c.params != "" && !deadlineThenSlow && g.Chance(1, 3) {
-					// (only with parameters: Call hands Send a pointer to its parameters argument, so a nil argument goes
-					// out as "parameters":null instead of being omitted — a different, equally well-formed wire form)
+				if c.flags == 0 && !deadlineThenSlow && g.Chance(1, 3) {
+					// (Call hands Send a pointer to its parameters argument, so a nil argument goes out as
+					// "parameters":null instead of being omitted — the model's `callWrapper`; bit 16 of the flags
+					// field tells the driver which wire form to expect)
+					calls[len(calls)-1].flags |= 16
 					// the convenience wrapper Connection.Call, with and without a place for the reply: an error reply
 					// must come back as that error either way
 					var out json.RawMessage
